@@ -322,7 +322,7 @@ theorem nameSound_some (org : Name) (hwo : WfName org) (hao : isAbs org = true) 
   | true =>
     simp only [if_true, relativizeO, hne, if_false, relativize] at hrel
     by_cases hs : isSubdomain nabs org = true
-    · simp only [hs, if_true, sliceToNeg, hlo, if_false] at hrel
+    · simp only [hs, if_true, sliceToNeg_pos _ _ hlo] at hrel
       obtain ⟨e, hwn⟩ := wf_of_validate _ _ hrel
       rw [← e] at hwn
       obtain ⟨hle, hwl⟩ := subdomain_facts nabs org ha hao hs
